@@ -441,7 +441,7 @@ func TestC10(t *testing.T) {
 	e, rfKnown := kf.Known("C10", "rangefrac-above-one")
 	e8, lv8Known := kf.Known("C10", "btree-more-than-8-levels")
 
-	rt.Check(t, rec, "batches", 1000, 16000, func(t *rapid.T) {
+	rt.Check(t, rec, "batches", 800, 10000, func(t *rapid.T) {
 		c := &c10ctx{t: t, rec: rec, rfWhat: e.What}
 		split := gen.Pick(t, "split", []int{3, 4, 5, 5, 7, 8, 12, 20, 50, 100, 100})
 		defer btree.SetSplit(btree.SetSplit(split))
